@@ -4,6 +4,10 @@ import json, os
 HERE = os.path.dirname(os.path.dirname(os.path.abspath(__file__)))
 
 CHECKS = {
+ 'C15': dict(level='exploration', design='2/C15',
+   technique='exhaustive enumeration of the key type x format x cipher x hash x PBES version x passphrase x comment matrix executed on the real import/export code, with PyCA, ssh-keygen and openssl as independent readers and writers',
+   text='For 7 key types every private export scheme asyncssh offers (5 plain, 5 PKCS#1 ciphers, 2x6 PBES1/PKCS#12 and 2x35 PBES2 combinations) is exported and re-imported: equal key, same public half; five wrong-passphrase variants (incl. same first 32 characters) must be rejected with the documented error. Public formats x comments with double blanks, tabs and non-UTF-8 bytes must round-trip. PyCA loaders, ssh-keygen -y/-l/-e and openssl pkey must read the same key; keys written by ssh-keygen (3 formats) and openssl pkcs8 -topk8 (PKCS#12 KDF and PBES2, passphrases of 1..33 characters) must be read identically by asyncssh; concatenated multi-key files in every order.',
+   note='OpenSSH-format encrypted private keys need bcrypt (absent): not exportable here; sk-* keys not covered; quick runs the full passphrase grid on one scheme per family.'),
  'C13': dict(level='model_checking', design='2/C13',
    technique='bounded-exhaustive enumeration of path strings x request kinds and explicit-state search over sequences of link/dir-creating requests against the real SFTP server code under a filesystem-call monitor; exhaustive enumeration of hostile SCP record sequences and SFTP listings against the real download code under the same monitor',
    text='Server: every path of <= 2 (thorough 3) components over a 9-symbol alphabet with 0-3 leading slashes x 22 request kinds x 3 prepared trees; every sequence of <= 2 (thorough 3) symlink/mkdir/rename requests followed by 52 accesses, states deduplicated by tree structure. A monitor wraps every path-taking os call and open(): nothing outside the root may be opened, listed or modified and no reply may carry outside content. Downloads: every SCP record sequence up to length 3 over {C,D,E,T,warning,fatal} x 11 hostile names, and recursive get/mget against listings of 1-2 hostile entries (name x type, duplicates, nested hostile names): nothing outside the caller-named destination may be created or modified.',
